@@ -8,7 +8,7 @@ require (
 )
 
 require (
-	go.uber.org/multierr v1.10.0 // indirect
+	go.uber.org/multierr v1.10.0
 	gopkg.in/yaml.v3 v3.0.1
 )
 
